@@ -162,7 +162,7 @@ func openMember(t evid.TB, s *srv.Server, transport string, f *feed) *member {
 	m.aud = &audience{exp: m.exp}
 	f.attach(m.aud)
 	if transport == "wsp" {
-		m.wsp = openWSP(t, s, m.pl, f.path, m.exp)
+		m.wsp = openWSP(t, s, m.pl, f.path, m.exp, nil)
 		m.wsp.sentinel = m.sentinelBytes
 		m.wsp.dsc = newScanner(m.wsp.data, 1, m.sentinelBytes)
 	} else {
